@@ -24,7 +24,7 @@ def classify(line):
 
 def run(v, tier, seed, replay=None):
     meta, _ = common.translate()
-    ok, failed, info = coqrun.prove(v, 'C10', ['Inst/SafeEq.v'])
+    ok, failed, info = coqrun.prove(v, 'C10', ['Inst/SafeEq.v', 'Inst/TermEq.v'])
     res = filerun.run(meta, seed, tier)
     asm = filerun.assembled_run(meta, seed, tier)
     cases = [(r['mode'] + ':' + str(r.get('what', r.get('cut', ''))), r['data'], r['model'], r['impl']) for r in res['r']] + \
